@@ -3,7 +3,7 @@ C14 -- array arithmetic follows strict linear-algebra shape rules and values.
 
 ENUM: every operand pair of the stated shape lattice x the five operators x the call forms
 (MathArray operator, reflected operator, in-place operator, formula string with array literals,
-formula string with array-valued variables, MatrixGrader) is executed on the REAL library and
+formula string with array-valued variables, MatrixGrader alone and inside list graders) is executed on the REAL library and
 compared with a pure-Python nested-list reference (mcv/refs/c14_ref.py) written from the
 statement and the "Allowed operations" tables of docs/grading_math/matrix_grader/matrix_grader.md.
 """
@@ -24,7 +24,10 @@ RULE = ('operands are drawn from a lattice of 22 array shapes (vectors 2-4, ever
         'Entries come from fixed small-integer / dyadic-float / complex fill patterns, squares in non-singular and '
         'singular variants. A case is non-trivial when the un-guarded numpy operator on the same operands would NOT '
         'give what the oracle requires (it broadcasts where an error is required, or returns an elementwise value '
-        'where a matrix product / matrix power / inverse is required).')
+        'where a matrix product / matrix power / inverse is required). Further families leave the lattice along one dimension '
+        'each: shapes just beyond it, power-of-two scaled matrices, large exponents, integer dtype near the int64 limit, numpy-typed '
+        'scalars, arrays that are function results, un-parenthesised formulas, the grader option left at its default and the '
+        'MatrixGrader used as a subgrader of list graders.')
 EXPLANATION = ('states = distinct (operator, call form, left operand, right operand) cases; transitions = executions of '
                'the real MathArray operator / evaluator / MatrixGrader; every execution runs the implementation itself')
 ASSUMPTIONS = ['reference = nested-list linear algebra in mcv/refs/c14_ref.py (Leibniz determinant, adjugate inverse)',
@@ -34,7 +37,15 @@ ASSUMPTIONS = ['reference = nested-list linear algebra in mcv/refs/c14_ref.py (L
                'vector * vector is the bilinear dot product (no conjugation), as in a row-times-column product',
                'division by the number zero, 0**negative and complex-typed integer exponents are left open',
                'exact exception subclass and wording are free; the error must be a StudentFacingError',
-               'numpy scalar operands (np.float64 on the left of a MathArray) are not exercised']
+               'numpy scalars on the LEFT of a bare MathArray operator (np.float64(2) + MathArray: numpy\'s own dispatch, upstream '
+               'issue 124) are not exercised; as right operands and as values of formula variables they are (numpy_typed_scalars)',
+               'scaled / large-power families compare after an exact rescaling (power-of-two scale, division by the largest exact '
+               'entry), so the tolerance there is relative to the magnitude of the entries',
+               'arrays computed by library functions (trans, ctrans, adj, conj, re, im, cross) obey the same rules as variables',
+               'un-parenthesised formulas follow the documented precedence: ^ (right-associative) > unary minus > * / > + -',
+               'PENDING-FINDING (cases skipped until decided): integer-dtype MathArrays wrap around int64 silently in products, '
+               'sums and powers (large_integer_powers, integer_dtype_magnitudes); MathArray.__pow__ refuses numpy integer and '
+               'float32 exponents as "non-integer" (numpy_typed_scalars)']
 
 # ----------------------------------------------------------------------------- operand universe
 
@@ -397,7 +408,7 @@ class ArrArr(BinopFamily):
 SC_ADD = ['0', '0.0', '-0.0', '0j', '2', '-1.5', '1+2j', '0.5', '1e-09', '1e-09j', '1e-13', '-3e-13', '5e-324', '2e-14j',
           '5.551115123125783e-17']
 SC_MUL = ['0', '1', '2', '-1.5', '1+2j', '0.5']
-SC_DIV = ['1', '2', '-1.5', '1+2j', '0.5']
+SC_DIV = ['0', '1', '2', '-1.5', '1+2j', '0.5']      # 0 / array is an error like any number / array; array / 0 is left open
 SC_BASE = ['0', '1', '2', '-1.5', '1+2j']
 
 
@@ -454,7 +465,7 @@ class Powers(BinopFamily):
 class PowerSyntax(Family):
     name = 'power_formula_syntax'
     timeout = 20.0
-    rule = ('formula strings "<base>^<exponent text>" for bases {vector, 2x3, 2x2 real/complex/singular, 3x3} given as '
+    rule = ('formula strings "<base>^<exponent text>" for bases {vector, 2x3, 2x2 real/complex/singular, 3x3, the numbers 2 and -1.5} given as '
             'literal and as variable, exponent texts incl. the bare-minus syntax (^-1, ^-2, ^-0.5, ^2^1, ^-1^3, '
             '^(1+i), ^[1,2], ^(0*2)); oracle parses the exponent text by the documented right-associative rule')
     TEXTS = [('-1', -1.0), ('-2', -2.0), ('(-1)', -1.0), ('-0.5', -0.5), ('0.5', 0.5), ('2', 2.0),
@@ -463,7 +474,9 @@ class PowerSyntax(Family):
              ('((1-0.9)*10)', (1 - 0.9) * 10), ('(0.3/0.1)', 0.3 / 0.1), ('1.999999999999', 1.999999999999)]
     BASES = [spec_arr((2,), 'ra'), spec_arr((2, 3), 'ra'), spec_arr((2, 2), 'ra'), spec_arr((2, 2), 'ca'),
              spec_arr((2, 2), 'sg'), spec_arr((3, 3), 'rb'), spec_arr((3, 3), 'sg'), spec_arr((2, 2, 2), 'ra'),
-             spec_arr((1, 2), 'ra'), spec_arr((4, 4), 'rf')]
+             spec_arr((1, 2), 'ra'), spec_arr((4, 4), 'rf'),
+             # scalar bases: a disabled negative MATRIX power must not refuse negative powers of numbers
+             spec_sc('2'), spec_sc('-1.5')]
 
     def setup(self, tier):
         Lib.load()
@@ -801,7 +814,7 @@ class GraderNegPow(Family):
               spec_arr((2, 3), 'ra'), spec_arr((3,), 'ra')]
     GTEXTS = [('-1', -1.0), ('-2', -2.0), ('(-1)', -1.0), ('-1.0', -1.0), ('0', 0.0), ('1', 1.0), ('2', 2.0),
               ('0.5', 0.5), ('-0.5', -0.5)]
-    rule = ('MatrixGrader(negative_powers=on/off, suppress_matrix_messages=on/off, user_constants A) graded on the student '
+    rule = ('MatrixGrader(negative_powers=on/off/left at its default, suppress_matrix_messages=on/off, user_constants A) graded on the student '
             'input "A^k" / "<literal>^k" / "A*A^k" for bases %s and exponent texts %s; a recording comparer (the documented '
             'comparer extension point) exposes the evaluated student value: legal => graded correct with the reference '
             'value; illegal or disabled negative power => StudentFacingError (or, when messages are suppressed, zero '
@@ -819,6 +832,9 @@ class GraderNegPow(Family):
                         for i in range(len(self.GTEXTS)):
                             yield (b, flag, sup, shape_in, i)
                             yield (b, flag, sup, shape_in, i, 'dependent-sampler')
+        for b in self.GBASES:       # the option left at its default (documented: negative powers enabled)
+            for i in range(len(self.GTEXTS)):
+                yield (b, 'default', 0, 'A^', i)
 
     def formula(self, case):
         b, flag, sup, shape_in, i = case[:5]
@@ -842,7 +858,9 @@ class GraderNegPow(Family):
             extra = dict(variables=['t', 'u'], sample_from={'u': DependentSampler(formula='t^2')})
         a = decode(b)
         k = self.GTEXTS[i][1]
-        negpow = flag == 'on'
+        negpow = flag in ('on', 'default')
+        if flag != 'default':
+            extra['negative_powers'] = negpow
         if shape_in == 'A*A^':
             exp = expected_of(lambda: R.mul(a, R.power(a, k, negpow)))
         else:
@@ -854,7 +872,7 @@ class GraderNegPow(Family):
             return True
 
         grader = Lib.MatrixGrader(answers={'comparer': recorder, 'comparer_params': ['1']},
-                                  user_constants={'A': to_lib(a)}, negative_powers=negpow,
+                                  user_constants={'A': to_lib(a)},
                                   suppress_matrix_messages=bool(sup), max_array_dim=3, samples=1, **extra)
         text = self.formula(case)
         got = attempt(lambda: grader(None, text))
@@ -906,6 +924,98 @@ class GraderNegPow(Family):
                     res.outcome = 'graded:' + res.outcome
         if res.violation is None and leak is not None:
             res.violation = leak
+        if res.violation is None and restored is not None:
+            res.violation = restored
+        return res
+
+
+# ----------------------------------------------------------------------------- MatrixGrader reached through list graders
+
+class NestedGraderNegPow(Family):
+    name = 'matrixgrader_nested_negative_powers'
+    timeout = 30.0
+    NBASES = [spec_arr((2, 2), 'ra'), spec_arr((2, 2), 'sg'), spec_arr((2, 3), 'ra')]
+    NTEXTS = [('-1', -1.0), ('-2', -2.0), ('-1.0', -1.0), ('2', 2.0), ('0.5', 0.5)]
+    WRAPPERS = ['list-ordered-mixed', 'list-unordered', 'single-list']
+    rule = ('the MatrixGrader(negative_powers=on/off) is not called directly but is the subgrader of an ordered ListGrader '
+            '(next to a second MatrixGrader with the OPPOSITE setting), of an unordered ListGrader, or of a SingleListGrader; the '
+            'student enters "A^k" (bases %s, k in %s) in the first or in the second position next to the harmless "A+A". '
+            'Disabled or illegal power => the whole call raises a StudentFacingError; otherwise the recording comparer must have '
+            'seen the reference value. Afterwards a plain A**-1 must work again' % (NBASES, [t for t, _ in NTEXTS]))
+
+    def setup(self, tier):
+        Lib.load()
+
+    def cases(self, tier):
+        for b in self.NBASES:
+            for flag in ('on', 'off'):
+                for w in self.WRAPPERS:
+                    for i in range(len(self.NTEXTS)):
+                        for pos in (0, 1):
+                            yield (b, flag, w, i, pos)
+
+    def describe(self, case):
+        b, flag, w, i, pos = case
+        inputs = ['A+A', 'A+A']
+        inputs[pos] = 'A^' + self.NTEXTS[i][0]
+        return {'A': decode(b), 'negative_powers': flag, 'wrapper': w, 'student_inputs': inputs}
+
+    def check(self, case):
+        from mitxgraders import ListGrader, SingleListGrader
+        b, flag, w, i, pos = case
+        a = decode(b)
+        k = self.NTEXTS[i][1]
+        negpow = flag == 'on'
+        exp = expected_of(lambda: R.power(a, k, negpow))
+        seen = []
+
+        def recorder(comparer_params_eval, student_eval, utils):
+            seen.append(student_eval)
+            return True
+
+        ans = {'comparer': recorder, 'comparer_params': ['1']}
+
+        def sub(setting):
+            return Lib.MatrixGrader(user_constants={'A': to_lib(a)}, negative_powers=setting, max_array_dim=3, samples=1)
+
+        inputs = ['A+A', 'A+A']
+        inputs[pos] = 'A^' + self.NTEXTS[i][0]
+        if w == 'list-ordered-mixed':
+            subs = [sub(not negpow), sub(not negpow)]
+            subs[pos] = sub(negpow)
+            grader = ListGrader(answers=[ans, ans], subgraders=subs, ordered=True)
+            got = attempt(lambda: grader(None, inputs))
+        elif w == 'list-unordered':
+            grader = ListGrader(answers=[ans, ans], subgraders=sub(negpow))
+            got = attempt(lambda: grader(None, inputs))
+        else:
+            grader = SingleListGrader(answers=[ans, ans], subgrader=sub(negpow), ordered=True)
+            got = attempt(lambda: grader(None, ', '.join(inputs)))
+        restored = check_restored()
+        site = 'nested-grader:%s:%s%s' % (w, site_of('^', a, k), '' if negpow else ':disabled')
+        if got[0] == 'err':
+            res = judge(exp, got, site, True, 1)
+        elif exp[0] == 'err':
+            res = Result('value-for-illegal', True,
+                         viol('returned-value-for-illegal:' + site,
+                              'the list grader graded an input the statement requires to be refused (%s)' % exp[1],
+                              'StudentFacingError', {'result': got[1], 'evaluated': [obs_summary(s) for s in seen]}), 1)
+        else:
+            def matches(s):
+                return (isinstance(s, np.ndarray) and tuple(s.shape) == R.shape(exp[1]) and R.same_value(exp[1], s.tolist()))
+            twice = R.add(a, a)
+            hit = [s for s in seen if matches(s)]
+            rest = [s for s in seen if not (isinstance(s, np.ndarray) and tuple(s.shape) == R.shape(twice)
+                                            and R.same_value(twice, s.tolist()))]
+            if hit:
+                res = judge(exp, ('val', hit[0]), site, True, 1)
+            elif rest:
+                res = judge(exp, ('val', rest[0]), site, True, 1)
+            else:
+                res = Result('refused', True, viol('legal-op-refused:' + site, 'the power was never handed to the comparer',
+                                                   exp[1], {'result': got[1], 'n_evaluated': len(seen)}), 1)
+            if res.violation is None:
+                res.outcome = 'graded:' + res.outcome
         if res.violation is None and restored is not None:
             res.violation = restored
         return res
@@ -981,6 +1091,557 @@ class ComputedScalars(Family):
         return judge(exp, got, site, True)
 
 
+def by_text_round_robin(groups, ways=16):
+    """
+    The runner deals cases()[i] to worker i mod 16 and every worker parses each formula text it meets once; emitting the
+    cases so that all cases of one text have the same index mod 16 keeps the number of parses at one per text.
+    groups: list of lists of cases (one list per text).  Deterministic; every case is emitted exactly once.
+    """
+    lanes = [[] for _ in range(ways)]
+    for gi, g in enumerate(groups):
+        lanes[gi % ways].extend(g)
+    depth = min(len(l) for l in lanes)
+    for r in range(depth):
+        for l in lanes:
+            yield l[r]
+    for l in lanes:             # the uneven tails
+        for c in l[depth:]:
+            yield c
+
+
+# ----------------------------------------------------------------------------- arrays that are COMPUTED (function / operator results)
+
+def _ref_cross_q(a):
+    return R.cross(a, CROSS_Q)
+
+
+CROSS_Q = [2, -1, 1]
+PRODUCERS = [
+    # (formula text, reference, shapes it applies to: None = all)
+    ('trans(A)', R.transpose, None), ('ctrans(A)', lambda a: R.conj(R.transpose(a)), None),
+    ('adj(A)', lambda a: R.conj(R.transpose(a)), None), ('conj(A)', R.conj, None), ('re(A)', R.re, None),
+    ('im(A)', R.im, None), ('cross(A,Q)', _ref_cross_q, [(3,)]),
+    ('(-A)', R.neg, None), ('(+A)', lambda a: a, None), ('(A)', lambda a: a, None),
+    ('(A*1)', lambda a: a, None), ('(1*A)', lambda a: a, None), ('(A/1)', lambda a: a, None),
+    ('(A+0)', lambda a: a, None), ('(0+A)', lambda a: a, None), ('(A-0)', lambda a: a, None), ('(0-A)', R.neg, None),
+    ('(A*2/2)', lambda a: a, None), ('(A^1)', lambda a: a, [(2, 2), (3, 3)]),
+    ('trans(trans(A))', lambda a: a, None), ('re(A*1)', R.re, None),
+]
+PRODUCER_SHAPES = {'quick': [(3,), (2, 3), (2, 2)], 'thorough': [(3,), (2,), (2, 3), (2, 2), (3, 3), (1, 3), (2, 2, 2), (2, 1, 2)]}
+PARTNERS = {'quick': ['s:2', 's:0', 'a:3:rb', 'a:2x3:rb', 'a:3x2:rb', 'a:2x2:rb'],
+            'thorough': ['s:2', 's:0', 's:-1.5', 's:1+2j', 's:1e-13', 'a:3:rb', 'a:2:rb', 'a:2x3:rb', 'a:3x2:rb', 'a:2x2:cb',
+                         'a:3x3:rb', 'a:1x3:rb', 'a:2x2x2:rb', 'a:2x1x2:rb']}
+
+
+class ComputedArrays(Family):
+    name = 'computed_arrays_with_operands'
+    timeout = 20.0
+    rule = ('formula strings "<P> op B" and "B op <P>" where <P> is an ARRAY-valued sub-expression computed from the variable A '
+            '(complex entries) by a library function or by an identity-like operator form (%s; Q = %s) and B is a scalar '
+            '(zero / non-zero) or an array of equal, transposed or unrelated shape, op in {+,-,*,/,^}: the rules for array '
+            'variables apply unchanged to computed arrays (a function result that is a plain ndarray would broadcast); oracle = '
+            'nested-list transpose / conjugate / real / imaginary part / cross product followed by the reference operator'
+            % ([p[0] for p in PRODUCERS], CROSS_Q))
+
+    def setup(self, tier):
+        Lib.load()
+        from mitxgraders.helpers.calc.mathfuncs import DEFAULT_FUNCTIONS, ARRAY_ONLY_FUNCTIONS
+        self.F = dict(DEFAULT_FUNCTIONS)
+        self.F.update(ARRAY_ONLY_FUNCTIONS)
+
+    def cases(self, tier):
+        groups = []
+        for pi, (_, _, only) in enumerate(PRODUCERS):
+            for op in OPS5:
+                for side in ('PB', 'BP'):
+                    groups.append([(pi, spec_arr(sh, 'ca'), partner, op, side)
+                                   for sh in PRODUCER_SHAPES[tier] if only is None or sh in only
+                                   for partner in PARTNERS[tier]])
+        return by_text_round_robin(groups)
+
+    def text(self, case):
+        pi, sa, partner, op, side = case
+        p = PRODUCERS[pi][0]
+        return '%s%sB' % (p, op) if side == 'PB' else 'B%s%s' % (op, p)
+
+    def describe(self, case):
+        return {'formula': self.text(case), 'A': decode(case[1]), 'B': decode(case[2]), 'Q': CROSS_Q}
+
+    def check(self, case):
+        pi, sa, partner, op, side = case
+        a, b = decode(sa), decode(partner)
+        ref = PRODUCERS[pi][1]
+        if side == 'PB':
+            exp = expected_of(lambda: R.binop(op, ref(a), b))
+        else:
+            exp = expected_of(lambda: R.binop(op, b, ref(a)))
+        V = {'A': to_lib(a), 'B': to_lib(b), 'Q': to_lib([float(q) for q in CROSS_Q])}
+        text = self.text(case)
+        got = attempt(lambda: Lib.evaluator(text, V, self.F, {}, max_array_dim=4)[0])
+        pa = ref(a)
+        site = 'computed-array:%s:%s' % (PRODUCERS[pi][0], site_of(op, pa, b) if side == 'PB' else site_of(op, b, pa))
+        return judge(exp, got, site, True)
+
+
+# ----------------------------------------------------------------------------- scalars of numpy type
+
+NP_SCALARS = [
+    # (id, numpy type name, python value)
+    ('f64:0', 'float64', 0.0), ('f64:2', 'float64', 2.0), ('f64:-1.5', 'float64', -1.5), ('f64:1e-13', 'float64', 1e-13),
+    ('f64:-1', 'float64', -1.0), ('f64:0.5', 'float64', 0.5), ('f64:1', 'float64', 1.0),
+    ('i64:0', 'int64', 0), ('i64:2', 'int64', 2), ('i64:-1', 'int64', -1), ('i64:1', 'int64', 1),
+    ('i32:3', 'int32', 3), ('f32:0', 'float32', 0.0), ('f32:2', 'float32', 2.0), ('f32:0.5', 'float32', 0.5),
+    ('c128:0', 'complex128', 0j), ('c128:1+2j', 'complex128', 1 + 2j), ('c64:2j', 'complex64', 2j),
+]
+NP_BY_ID = {s[0]: s for s in NP_SCALARS}
+NP_SHAPES = {'quick': [(2,), (3,), (2, 2), (3, 3), (2, 3), (1, 2), (2, 2, 2)], 'thorough': ARR_SHAPES}
+
+
+def np_scalar(sid):
+    _, tname, val = NP_BY_ID[sid]
+    return getattr(np, tname)(val)
+
+
+class NumpyScalars(Family):
+    name = 'numpy_typed_scalars'
+    timeout = 20.0
+    rule = ('scalars whose TYPE is a numpy scalar type (%s; e.g. an author constant np.sqrt(2)) combined with every array shape '
+            'of %s: as the value of a formula variable on either side of {+,-,*,/,^} ("var"), and as the RIGHT operand of the '
+            'MathArray operator and in-place operator ("op", "iop"); same rules as for Python numbers of the same value. '
+            'numpy scalars on the LEFT of a bare MathArray operator are numpy\'s own dispatch (upstream issue 124) and are not '
+            'exercised; numpy integer / float32 exponents given directly to MathArray.__pow__ are a PENDING finding'
+            % ([s[0] for s in NP_SCALARS], NP_SHAPES))
+
+    def setup(self, tier):
+        Lib.load()
+
+    @staticmethod
+    def pending(form, op, sid, shape):
+        # PENDING-FINDING: MathArray.__pow__ calls a numpy integer / float32 exponent "non-integer" (A ** np.int64(2) is refused)
+        val = NP_BY_ID[sid][2]
+        return (form in ('op', 'iop') and op == '^' and not sid.startswith('f64:') and len(shape) == 2 and shape[0] == shape[1]
+                and not isinstance(val, complex) and val == int(val))
+
+    def cases(self, tier):
+        for form in ('var', 'op', 'iop'):
+            for op in OPS5:
+                for sh in NP_SHAPES[tier]:
+                    for s in NP_SCALARS:
+                        if not self.pending(form, op, s[0], sh):          # PENDING-FINDING
+                            yield (form, op, spec_arr(sh, 'ra'), s[0], 'AS')
+                        if form == 'var':
+                            yield (form, op, spec_arr(sh, 'ra'), s[0], 'SA')
+
+    def describe(self, case):
+        form, op, sa, sid, side = case
+        return {'form': form, 'op': op, 'array': decode(sa), 'scalar': '%s(%r)' % NP_BY_ID[sid][1:], 'array side': 'left' if side == 'AS' else 'right'}
+
+    def check(self, case):
+        form, op, sa, sid, side = case
+        a = decode(sa)
+        pyval = NP_BY_ID[sid][2]
+        n = np_scalar(sid)
+        if side == 'AS':
+            exp = expected_of(lambda: R.binop(op, a, pyval))
+        else:
+            exp = expected_of(lambda: R.binop(op, pyval, a))
+        la = to_lib(a)
+        if form == 'var':
+            text = 'A%sn' % op if side == 'AS' else 'n%sA' % op
+            got = attempt(lambda: Lib.evaluator(text, {'A': la, 'n': n}, {}, {})[0])
+        elif form == 'op':
+            got = attempt(lambda: PYOP[op](la, n))
+        else:
+            got = attempt(lambda: PYIOP[op](la, n))
+        site = 'npscalar:%s:%s' % (NP_BY_ID[sid][1], site_of(op, a, pyval) if side == 'AS' else site_of(op, pyval, a))
+        return judge(exp, got, site, True)
+
+
+# ----------------------------------------------------------------------------- inverses of scaled matrices
+
+def scale_value(sc):
+    kind, e = sc
+    return (2.0 ** e) if kind == 'r' else complex(0, 2.0 ** e)
+
+
+SPECIAL_SQUARES = [
+    [[1, 0, 0], [1, 2, 2], [2, 1, 1]],                  # singular, LU meets no exact zero pivot
+    [[1, 2, 3], [4, 5, 6], [7, 8, 9]],                  # singular
+    [[2, 1, 0], [1, 2, 1], [0, 1, 2]],                  # det 4
+    [[1, 1, 0], [0, 1, 1], [0, 0, 1]],                  # det 1
+    [[1, 2, 3, 4], [5, 6, 7, 8], [9, 10, 11, 12], [13, 14, 15, 16]],     # rank 2
+    [[2, 1, 0, 0], [1, 2, 1, 0], [0, 1, 2, 1], [0, 0, 1, 2]],            # det 5
+    [[1, 2], [2, 4]], [[3, 1], [5, 2]],
+]
+
+
+class ScaledInverse(Family):
+    timeout = 20.0
+
+    def __init__(self, name, n, palette, scales_by_tier, exps):
+        self.name = name
+        self.n = n                  # 0 = the list SPECIAL_SQUARES
+        self.palette = palette
+        self.scales_by_tier = scales_by_tier
+        self.exps = exps
+        what = ('EVERY %dx%d matrix over the palette %s' % (n, n, palette)) if n else ('each of %s' % (SPECIAL_SQUARES,))
+        self.rule = ('%s multiplied by a power-of-two scale s (%s; "i" = imaginary) and raised to %s: singularity does not depend on '
+                     'the scale, so exact determinant 0 => refused, otherwise s^-k * (result) must equal the exact power of the '
+                     'unscaled integer matrix (the scaling is exact in binary floating point, so the comparison is relative to '
+                     'the magnitude of the entries); every case is non-trivial' % (what, scales_by_tier, exps))
+
+    def setup(self, tier):
+        Lib.load()
+
+    def count(self):
+        return len(self.palette) ** (self.n * self.n) if self.n else len(SPECIAL_SQUARES)
+
+    def cases(self, tier):
+        for idx in range(self.count()):
+            for sc in self.scales_by_tier[tier]:
+                for k in self.exps:
+                    yield (idx, list(sc), k)
+
+    def matrix(self, idx):
+        if not self.n:
+            return SPECIAL_SQUARES[idx]
+        vals = []
+        b = len(self.palette)
+        for _ in range(self.n * self.n):
+            idx, d = divmod(idx, b)
+            vals.append(self.palette[d])
+        return _build((self.n, self.n), vals)
+
+    def describe(self, case):
+        idx, sc, k = case
+        s = scale_value(sc)
+        return {'matrix': R.emap(lambda t: t * s, self.matrix(idx)), 'unscaled': self.matrix(idx), 'scale': repr(s), 'exponent': k}
+
+    def check(self, case):
+        idx, sc, k = case
+        m = self.matrix(idx)
+        s = scale_value(sc)
+        scaled = R.emap(lambda t: t * s, m)
+        exp = expected_of(lambda: R.power(m, k))
+        la = Lib.MathArray(scaled)
+        got = attempt(lambda: la ** k)
+        if got[0] == 'val' and isinstance(got[1], Lib.MathArray) and got[1].ndim == 2:
+            factor = 1.0                      # s^-k, exact (k < 0 in this family, so repeated multiplication by s)
+            for _ in range(abs(k)):
+                factor = factor * s if k < 0 else factor / s
+            with warnings.catch_warnings():
+                warnings.simplefilter('ignore')
+                got = ('val', Lib.MathArray(np.asarray(got[1]) * factor))
+        return judge(exp, got, site_of('^', m, k) + ':scaled', True)
+
+
+# ----------------------------------------------------------------------------- large integer powers, integer dtype
+
+LP_MATS = [
+    [[1, 1], [1, 0]], [[2, 1], [1, 3]], [[3, 0], [0, 3]], [[1, 2], [0, 1]], [[1, 1, 0], [0, 1, 1], [0, 0, 1]],
+    [[0, -1], [1, 0]], [[(0, 1), 1], [0, 1]], [[0.5, 0.25], [0, 0.5]],
+]
+LP_EXPS = [4, 5, 6, 7, 8, 9, 10, 15, 16, 17, 31, 32, 40, 41, 62, 63, 64, 90, -4, -5, -7, -8, -16, -31, -40, -64]
+INT64_MAX = 2 ** 63 - 1
+
+
+def lp_matrix(mi, dtype):
+    m = R.emap(lambda t: t, [[complex(*v) if isinstance(v, tuple) else v for v in row] for row in LP_MATS[mi]])
+    if dtype == 'float':
+        return R.emap(float, m)
+    if dtype == 'complex':
+        return R.emap(complex, m)
+    return m
+
+
+def lp_dtypes(mi):
+    flat = [v for row in LP_MATS[mi] for v in row]
+    if any(isinstance(v, tuple) for v in flat):
+        return ['complex']
+    if any(isinstance(v, float) for v in flat):
+        return ['float']
+    return ['int', 'float', 'complex']
+
+
+class LargePowers(Family):
+    name = 'large_integer_powers'
+    timeout = 20.0
+    rule = ('matrices %s given as integer-, float- and complex-dtype MathArrays, raised to every exponent of %s (beyond the small '
+            'exponents of the other families) through the operator and through a formula with the matrix as a variable; oracle = '
+            'exact Python integer arithmetic (repeated product, adjugate inverse). Integer-dtype cases whose exact result exceeds '
+            'the int64 range are a PENDING finding (numpy wraps around silently)' % (LP_MATS, LP_EXPS))
+
+    def setup(self, tier):
+        Lib.load()
+
+    @staticmethod
+    def pending(mi, dtype, k):
+        # PENDING-FINDING: integer-dtype matrix powers overflow int64 silently (MathArray([[3,0],[0,3]])**40 is negative garbage)
+        if dtype != 'int' or k < 0:
+            return False
+        big = R.power(lp_matrix(mi, 'int'), k)
+        return max(abs(t) for t in R.flat(big)) > INT64_MAX
+
+    def cases(self, tier):
+        for mi in range(len(LP_MATS)):
+            for dtype in lp_dtypes(mi):
+                for k in LP_EXPS:
+                    if self.pending(mi, dtype, k):          # PENDING-FINDING
+                        continue
+                    for form in ('op', 'var'):
+                        yield (mi, dtype, k, form)
+
+    def describe(self, case):
+        mi, dtype, k, form = case
+        return {'matrix': repr(lp_matrix(mi, dtype)), 'dtype': dtype, 'exponent': k, 'form': form}
+
+    def check(self, case):
+        mi, dtype, k, form = case
+        m = lp_matrix(mi, dtype)
+        exact = lp_matrix(mi, 'int' if dtype == 'int' or 'int' in lp_dtypes(mi) else dtype)
+        exp = expected_of(lambda: R.power(exact, k))
+        la = Lib.MathArray(m)
+        if form == 'op':
+            got = attempt(lambda: la ** k)
+        else:
+            got = attempt(lambda: Lib.evaluator('A^n' if k >= 0 else 'A^-n', {'A': la, 'n': abs(k)}, {}, {})[0])
+        if exp[0] == 'val':
+            # entries reach 1e40: compare relative to the largest entry (judge's tolerance has an absolute floor of 1e-9)
+            top = max(abs(t) for t in R.flat(exp[1])) or 1
+            exp = ('val', R.emap(lambda t: t / top, exp[1]))
+            if got[0] == 'val' and isinstance(got[1], Lib.MathArray):
+                with warnings.catch_warnings():
+                    warnings.simplefilter('ignore')
+                    got = ('val', Lib.MathArray(np.asarray(got[1]) / float(top)))
+        return judge(exp, got, site_of('^', m, k) + ':large:' + dtype, True)
+
+
+class IntDtypeProducts(Family):
+    name = 'integer_dtype_magnitudes'
+    timeout = 20.0
+    MAGS = [10 ** 4, 3 * 10 ** 9, 2 ** 61]
+    PAIRS = [((2,), (2,)), ((2, 2), (2,)), ((2,), (2, 2)), ((2, 2), (2, 2)), ((2, 3), (3, 2)), ((2,), 'int'), ((2, 2), 'int'),
+             ('int', (2,)), ((2,), 'float')]
+    rule = ('integer-dtype MathArrays with entries of magnitude %s multiplied with / added to integer-dtype arrays and Python '
+            'ints of the same magnitude (operator form): the exact integer result is required. Cases whose exact result leaves '
+            'the int64 range are a PENDING finding (silent wrap-around, or a raw OverflowError for Python ints beyond int64)'
+            % (MAGS,))
+
+    def setup(self, tier):
+        Lib.load()
+
+    def operands(self, case):
+        pi, mag, op = case
+        sa, sb = self.PAIRS[pi]
+
+        def mk(s, seq):
+            if s == 'int':
+                return mag + 1
+            if s == 'float':
+                return float(mag)
+            n = 1
+            for d in s:
+                n *= d
+            return _build(s, [seq[t % 16] * mag for t in range(n)])
+        return mk(sa, SEQ_A), mk(sb, SEQ_B)
+
+    def exact(self, case):
+        a, b = self.operands(case)
+        return expected_of(lambda: R.binop(case[2], a, b))
+
+    def pending(self, case):
+        # PENDING-FINDING: integer-dtype arithmetic overflows int64 silently / raises a raw OverflowError
+        exp = self.exact(case)
+        if exp[0] != 'val':
+            return False
+        a, b = self.operands(case)
+        if any(isinstance(t, float) for t in R.flat(a) + R.flat(b)):
+            return False
+        vals = R.flat(exp[1]) + R.flat(a) + R.flat(b)
+        return any(t > INT64_MAX or t < -INT64_MAX - 1 for t in vals)
+
+    def cases(self, tier):
+        for pi in range(len(self.PAIRS)):
+            for mag in self.MAGS:
+                for op in ('*', '+', '-'):
+                    case = (pi, mag, op)
+                    if self.pending(case):          # PENDING-FINDING
+                        continue
+                    yield case
+
+    def describe(self, case):
+        a, b = self.operands(case)
+        return {'left': a, 'op': case[2], 'right': b}
+
+    def check(self, case):
+        case = tuple(case)
+        a, b = self.operands(case)
+        exp = self.exact(case)
+        got = execute_binop('op', case[2], a, b)
+        if exp[0] == 'val' and not R.is_num(exp[1]):
+            top = max(abs(t) for t in R.flat(exp[1])) or 1
+            if got[0] == 'val' and isinstance(got[1], Lib.MathArray):
+                exp = ('val', R.emap(lambda t: t / top, exp[1]))
+                got = ('val', Lib.MathArray(np.asarray(got[1]) / top))
+        elif exp[0] == 'val':
+            top = abs(exp[1]) or 1
+            if got[0] == 'val' and isinstance(got[1], Number):
+                exp, got = ('val', exp[1] / top), ('val', got[1] / top)
+        return judge(exp, got, site_of(case[2], a, b) + ':intdtype', True)
+
+
+# ----------------------------------------------------------------------------- shapes just beyond the exhaustive bound
+
+EXTRA_SHAPES = [(5,), (6,), (5, 5), (2, 5), (5, 2), (1, 5), (5, 1), (2, 2, 2, 2), (3, 3, 3), (2, 3, 4), (1, 1, 2), (2, 1, 1, 2)]
+assert abs(R.det(fill((5, 5), 'ra'))) >= 1 and abs(R.det(fill((5, 5), 'rb'))) >= 1
+BEYOND_EXPONENTS = ['0', '1', '2', '3', '-1', '-2', '2.0', '-1.0', '0.5', '1+1j']
+BEYOND_SCALARS = ['0', '2', '-1.5', '1+2j', '1e-13']
+
+
+class BeyondBound(BinopFamily):
+    def __init__(self, name, forms_by_tier):
+        self.name = name
+        self.forms_by_tier = forms_by_tier
+        self.rule = ('shapes just beyond the exhaustive lattice (%s: longer vectors, 5-wide matrices, 4-axis tensors, larger '
+                     '3-axis tensors) paired in both orders with every shape of the lattice and with each other x {+,-,*,/,^}, '
+                     'with the scalars %s on either side, and raised to the exponents %s with negative powers on and off; '
+                     'call forms %s; same oracle and non-triviality rule as the lattice families'
+                     % (EXTRA_SHAPES, BEYOND_SCALARS, BEYOND_EXPONENTS, forms_by_tier))
+
+    def cases(self, tier):
+        for form in self.forms_by_tier[tier]:
+            for se in EXTRA_SHAPES:
+                for op in OPS5:
+                    for so in ARR_SHAPES + EXTRA_SHAPES:
+                        yield (op, form, spec_arr(se, 'ra'), spec_arr(so, 'rb'))
+                        if so not in EXTRA_SHAPES:
+                            yield (op, form, spec_arr(so, 'rb'), spec_arr(se, 'ra'))
+                    for sid in BEYOND_SCALARS:
+                        if op != '^':
+                            yield (op, form, spec_arr(se, 'ra'), spec_sc(sid))
+                        if form != 'iop':
+                            yield (op, 'refl' if form == 'op' else form, spec_sc(sid), spec_arr(se, 'ra'))
+                for ex in BEYOND_EXPONENTS:
+                    yield ('^', form, spec_arr(se, 'ra'), spec_sc(ex))
+                    yield ('^', form, spec_arr(se, 'ra'), spec_sc(ex), 'off')
+
+
+# ----------------------------------------------------------------------------- un-parenthesised expressions (precedence)
+
+FLAT_ALPHABET = dict(EXPR_ALPHABET)
+UNARY_FORMS = ['-a%sb', 'a%s-b', '-a%s-b', '+a%sb', '+-a%sb', '-a%sb%sc', 'a%s-b%sc', 'a%sb%s-c']
+
+
+def _flat_product(factors, ops):
+    return R.chain(factors, ops) if len(factors) > 1 else factors[0]
+
+
+def flat_value(tokens):
+    """
+    tokens: list alternating operands / operator characters, operands are ('v', value) or ('-', operand) for a unary minus.
+    Documented precedence: ^ (right-associative, a unary minus allowed directly after ^) binds tighter than the unary minus,
+    which binds tighter than * and / (left to right, with the triple-vector rule), which bind tighter than + and -.
+    """
+    # split into terms at + / -
+    terms, signs, cur = [], ['+'], []
+    for t in tokens:
+        if isinstance(t, str) and t in ('+', '-'):
+            terms.append(cur)
+            signs.append(t)
+            cur = []
+        else:
+            cur.append(t)
+    terms.append(cur)
+    total = None
+    for sign, term in zip(signs, terms):
+        # split into factors at * and /
+        factors, fops, cur = [], [], []
+        for t in term:
+            if isinstance(t, str) and t in ('*', '/'):
+                factors.append(cur)
+                fops.append(t)
+                cur = []
+            else:
+                cur.append(t)
+        factors.append(cur)
+        fvals = []
+        for f in factors:
+            # f = [operand, '^', operand, '^', operand ...]; operands may carry a unary minus
+            ops_ = [x for x in f if isinstance(x, tuple)]
+            lead_minus, base = ops_[0][0] == '-', ops_[0][1]
+            result = None
+            for o in reversed(ops_[1:]):
+                e = o[1] if result is None else R.power(o[1], result)
+                result = R.neg(e) if o[0] == '-' else e
+            val = base if result is None else R.power(base, result)
+            fvals.append(R.neg(val) if lead_minus else val)
+        pv = _flat_product(fvals, fops)
+        total = pv if total is None else R.binop(sign, total, pv)
+    return total
+
+
+class FlatExpr(Family):
+    timeout = 20.0
+
+    def __init__(self, name, letters_by_tier):
+        self.name = name
+        self.letters_by_tier = letters_by_tier
+        self.rule = ('every UN-parenthesised formula "a o1 b o2 c" with a,b,c over the alphabet of nested_expressions and o1,o2 in '
+                     '{+,-,*,/,^}, plus the unary forms %s over pairs/triples (a leading sign, a sign after an operator), evaluated '
+                     'with variables; oracle = the documented precedence (^ right-associative > unary minus > * / left to right '
+                     'with the triple-vector refusal > + - left to right) applied with the reference operators; this reaches '
+                     'sums of three terms, power towers and negation nodes on arrays; non-trivial = at least two array operands'
+                     % (UNARY_FORMS,))
+
+    def setup(self, tier):
+        Lib.load()
+
+    def cases(self, tier):
+        letters = self.letters_by_tier[tier]
+        groups = []
+        for form in ['a%sb%sc'] + UNARY_FORMS:
+            if 'c' in form and form[0] != 'a' and tier == 'quick':
+                continue
+            if 'c' in form and '-' in form and tier == 'quick':
+                continue
+            for ops in itertools.product(OPS5, repeat=form.count('%s')):
+                text = form % ops
+                groups.append([(text, ''.join(xyz)) for xyz in itertools.product(letters, repeat=3 if 'c' in text else 2)])
+        return by_text_round_robin(groups)
+
+    @staticmethod
+    def tokens(text, vals):
+        """text over a, b, c and operators -> token list for flat_value (a sign is unary at the start or after an operator)"""
+        out = []
+        pending_minus = False
+        prev_is_operand = False
+        for ch in text:
+            if ch in 'abc':
+                out.append(('-' if pending_minus else 'v', vals['abc'.index(ch)]))
+                pending_minus = False
+                prev_is_operand = True
+            elif ch in '+-' and not prev_is_operand:
+                if ch == '-':
+                    pending_minus = not pending_minus
+            else:
+                out.append(ch)
+                prev_is_operand = False
+        return out
+
+    def describe(self, case):
+        text, xyz = case
+        return {'formula': text, 'values': dict(zip('abc', [FLAT_ALPHABET[f] for f in xyz]))}
+
+    def check(self, case):
+        text, xyz = case
+        vals = [FLAT_ALPHABET[f] for f in xyz]
+        exp = expected_of(lambda: flat_value(self.tokens(text, vals)))
+        variables = {n: to_lib(v) for n, v in zip('abc', vals)}
+        got = attempt(lambda: Lib.evaluator(text, variables, {}, {})[0])
+        narr = sum(1 for v in vals if not R.is_num(v))
+        return judge(exp, got, 'flat:' + text, narr >= 2)
+
+
 # ----------------------------------------------------------------------------- registry
 
 def families(tier):
@@ -1016,9 +1677,27 @@ def families(tier):
         Depth2('nested_expressions', {'quick': 'zsvwMSN', 'thorough': 'zstvwuMSNKT'}),
         Literals('array_literals', {'quick': [(2, 3), (3, 2)], 'thorough': [(2, 4), (3, 2), (4, 2, 'slim')]}),
         GraderNegPow(),
+        NestedGraderNegPow(),
+        ComputedArrays(),
+        NumpyScalars(),
+        ScaledInverse('inverse_scaled_2x2', 2, [-1, 0, 1, 2],
+                      {'quick': [('r', -40), ('r', -20), ('r', 20), ('r', 40), ('i', 20)],
+                       'thorough': [('r', -300), ('r', -40), ('r', -20), ('r', 20), ('r', 40), ('r', 300), ('i', 20), ('i', -20)]},
+                      [-1, -2]),
+        ScaledInverse('inverse_scaled_special', 0, None,
+                      {'quick': [('r', -60), ('r', -40), ('r', -20), ('r', -10), ('r', 0), ('r', 10), ('r', 20), ('r', 40),
+                                 ('r', 60), ('i', 20), ('i', -20)],
+                       'thorough': [('r', e) for e in range(-100, 101, 10)] + [('i', e) for e in (-40, -20, 0, 20, 40)]},
+                      [-1, -2, -3]),
+        LargePowers(),
+        IntDtypeProducts(),
+        BeyondBound('shapes_beyond_bound', {'quick': ['op'], 'thorough': ['op', 'iop', 'var']}),
+        FlatExpr('flat_expressions', {'quick': 'zsvMN', 'thorough': 'zstvwuMSNKT'}),
     ]
     if tier == 'thorough':
         fams += [
+            InverseSweep('inverse_all_3x3_01i', 3, [0, 1, (0, 1)], [-1], ('thorough',)),
+            ScaledInverse('inverse_scaled_3x3_012', 3, [0, 1, 2], {'quick': [], 'thorough': [('r', -30), ('r', 30)]}, [-1]),
             InverseSweep('inverse_all_3x3_m101', 3, [-1, 0, 1], [-1, -2], ('thorough',)),
             InverseSweep('inverse_all_4x4_01', 4, [0, 1], [-1], ('thorough',)),
             InverseSweep('inverse_all_3x3_0123', 3, [0, 1, 2, 3], [-1], ('thorough',)),
